@@ -2,7 +2,7 @@
 import itertools
 import re
 
-from vlib import core, newgen, pkgrun
+from vlib import core, newgen, pkgrun, xferleg
 from vlib.sexp import Q, dump
 
 PROP = "C13"
@@ -10,7 +10,7 @@ LEAN_MODULES = ["ShootVerif.Props.C13"]
 USES_FACTS = False
 DRIVER = "shootmodel_new"
 MANIFEST = dict(
-    text="Lean 4 theorems over a model of the -opt output (AllList/DefaultList of new.go, With/option/SetDefault of constructor.tmpl) and of runtime shoot.NewWith: With/NewWith = SetDefault then the options folded left to right (C13_fold), final value of every field = last option for it, else its default, else the previous content, for ALL default lists, option sequences and receivers (C13_last_wins, C13_later_overrides), each option touches one field (C13_one_field, C13_frame), option functions exist for exactly the visible non-skipped leaves (C13_options_are_visible_leaves). Tied to the code by generating struct packages, running the rebuilt `shoot new -opt [-short]`, compiling, and executing all option sequences up to length 4 through shoot.NewWith and T.With on a dirtied receiver, reading every leaf back by reflection. Since the second seeding round: C13_alloc_chain / C13_alloc_lookup (AllocMap scan = struct-derived pointer chains); execution uses allocating defaults (slice/map/pointer literals) and scribbles every produced instance in place so that shared default values show, multi-type invocations (companion type first, with -getset where neutral), and the -file= selection mode.",
+    text="Lean 4 theorems over a model of the -opt output (AllList/DefaultList of new.go, With/option/SetDefault of constructor.tmpl) and of runtime shoot.NewWith: With/NewWith = SetDefault then the options folded left to right (C13_fold), final value of every field = last option for it, else its default, else the previous content, for ALL default lists, option sequences and receivers (C13_last_wins, C13_later_overrides), each option touches one field (C13_one_field, C13_frame), option functions exist for exactly the visible non-skipped leaves (C13_options_are_visible_leaves). Tied to the code by generating struct packages, running the rebuilt `shoot new -opt [-short]` (also spelled -option, flags in both orders), compiling, and executing all option sequences up to length 4 through shoot.NewWith and T.With on a dirtied receiver, reading every leaf back by reflection. Since the second seeding round: C13_alloc_chain / C13_alloc_lookup (AllocMap scan = struct-derived pointer chains); execution uses allocating defaults (slice/map/pointer literals) and scribbles every produced instance in place so that shared default values show, multi-type invocations (companion type first, with -getset where neutral), and the -file= selection mode.",
     note="Lean kernel + standard axioms; the state is keyed by field name (Go selector semantics validated by execution); option values are sentinels per call position; reflection/unsafe used to dirty receivers.",
     technique="Lean 4 proof (list-fold lemmas, last-writer-wins) + exhaustive small-scope execution of generated option functions",
     design="5/C13")
@@ -208,12 +208,18 @@ def run(ctx, obl):
             if newgen.getset_neutral(s) and ctx.rng.random() < 0.6:
                 gs = ["-getset"]
             res.hist("multi_type", "companion" + ("+getset" if gs else ""))
-        args = ["new", "-opt"] + gs + (["-short"] if shorts[i] else []) + ["-type=" + ",".join(cnames + [s["name"]])]
+        # the documented alias -option and both flag orders
+        optflag = ctx.rng.choice(["-opt", "-opt", "-option"]) if i >= 6 else "-opt"
+        fl = [optflag] + gs + (["-short"] if shorts[i] else [])
+        if i >= 6 and ctx.rng.random() < 0.4:
+            fl.reverse()
+        res.hist("flag_spelling", " ".join(fl))
+        args = ["new"] + fl + ["-type=" + ",".join(cnames + [s["name"]])]
         # 12%: the same command a second time, over the package that now holds its own output
         rerun = i >= 6 and ctx.rng.random() < 0.12
         res.hist("rerun", str(rerun))
         if filemode[i]:
-            args = ["new", "-opt", "-file=t.go"]
+            args = ["new", optflag, "-file=t.go"]
             res.hist("selection_mode", "file")
         pc = {"id": "o%d" % i, "files": {"t.go": newgen.render_file("cs", cdecls + [s])}, "runs": [{"args": args}] * (2 if rerun else 1), "oracle": {".": oracle}}
         b.add(pc)
@@ -267,6 +273,8 @@ def run(ctx, obl):
                 "length 4 (k<=3 options) / 3 (k<=5) / 2 (k<=9) plus 40 random sequences up to length 6, executed through shoot.NewWith and through "
                 "T.With on a receiver whose every leaf was dirtied; every leaf read back. non-trivial = struct with a default and >1 sequence. "
                 "One TEST leg without a model: With and NewWith on types that embed a type with defaults must agree (promoted SetDefault)")
+    # option names are pascalCase(field name) + OfT: the Lean Transfer model against internal/transfer on many more strings
+    xferleg.run(ctx, res, ctx.n(5000, 50000))
     res.assumptions = ["Go selector semantics for `t.name = v` (validated by execution)", "reflection/unsafe reads and writes of unexported fields"]
     return res
 
